@@ -386,6 +386,7 @@ func runScenario(sc *Scenario, r *zsimrt.Rand, replay []zsimrt.Decision) *Outcom
 	}
 	passB := func() {
 		zsimrt.SetMapSeed(sc.MapSeed*5 + 2)
+		zsimrt.ClockAdvance(sc.ClockGaps[1])
 		seen := make([]bool, total)
 		for _, f := range sc.RefOrder {
 			if f < 0 || f >= total || seen[f] {
@@ -404,6 +405,7 @@ func runScenario(sc *Scenario, r *zsimrt.Rand, replay []zsimrt.Decision) *Outcom
 
 	sim := func() {
 		zsimrt.SetMapSeed(sc.MapSeed)
+		zsimrt.ClockAdvance(sc.ClockGaps[0])
 		// shared pool
 		n := len(sc.Shared)
 		w.shared = make([]*expr.Expression, n)
@@ -444,6 +446,7 @@ func runScenario(sc *Scenario, r *zsimrt.Rand, replay []zsimrt.Decision) *Outcom
 			StallPerm: sc.Sched.StallPermil,
 			StallMean: sc.Sched.StallMean,
 			SyncQ:     sc.Sched.SyncQ,
+			ClockPerm: sc.Sched.ClockPermil,
 			HookEvery: sc.O2Every,
 			StepCap:   30_000_000,
 		}
